@@ -288,8 +288,9 @@ def check_lock_order(rep: Report, src: str, triples: bool):
             + (f".  Confirmed on the real code under the cooperative scheduler: {conf['blocked']}" if conf else ""),
             {"kind": "lockorder", "members": d["members"], "schedule": d["schedule"]},
         )
-    for d in a["observations"]:
-        conf = c14_lockorder.confirm(src, rec, d, a["coll"]) if len(d["members"]) == 2 else None
+    obs = sorted(a["observations"], key=lambda d: -sum("enable_queries" in m for m in d["members"]))
+    for n, d in enumerate(obs):
+        conf = c14_lockorder.confirm(src, rec, d, a["coll"]) if len(d["members"]) == 2 and n < 2 else None
         info.setdefault("observations_outside_the_law", []).append(
             {"members": d["members"], "waits_for": d["locks"], "schedule": d["schedule"],
              "confirmed_on_real_code": bool(conf and conf["deadlock"])})
